@@ -6,21 +6,7 @@ package option
 
 //@ func FlatMap(opt, fn) result
 //@   prop C01 C02
-//@   ensures opt.IsDefined() ==> Eq(result, fn(opt.Get()))
+//@   ensures opt.IsDefined() ==> Eq(result, fn(opt.Get())) && Calls(1)
 //@   ensures !opt.IsDefined() ==> Eq(result, fp.None[U]()) && NoCalls()
 //
-//@ lemma leftIdentity[A, B any](a A, f func(A) fp.Option[B])
-//@   prop C01
-//@   ensures EqT(FlatMap(Some(a), f), f(a))
-//
-//@ lemma rightIdentity[A any](m fp.Option[A])
-//@   prop C01
-//@   ensures EqT(FlatMap(m, Some[A]), m)
-//
-//@ lemma assoc[A, B, C any](m fp.Option[A], f func(A) fp.Option[B], g func(B) fp.Option[C])
-//@   prop C01
-//@   ensures EqT(FlatMap(FlatMap(m, f), g), FlatMap(m, func(a A) fp.Option[C] { return FlatMap(f(a), g) }))
-//
-//@ lemma mapDef[A, B any](m fp.Option[A], f func(A) B)
-//@   prop C01
-//@   ensures EqT(Map(m, f), FlatMap(m, func(a A) fp.Option[B] { return Some(f(a)) }))
+//@ include internal/verifspec/monad.contracts MO=fp.Option[ TP= TPU= PURE=Some X=
